@@ -1,13 +1,41 @@
 (* Correspondence check for C18. The harness runs small concurrent programs on
    the real sync2.AtomicValue[int] and sync2.Pool[*item] (the Go runtime owns
    the schedule) and records, per goroutine and in program order, the calls it
-   made and what each returned. The check is outcome-set inclusion:
-   [check_case] searches the schedules of the MODEL machine (depth first over
-   which thread performs its next call; within the search a call runs to its
-   return without interruption, which does not lose outcomes because every
-   call takes effect at one step) for one along which the model returns
-   exactly the observed results. No such schedule = mismatch. The search runs
-   the model's own [astep] / [pstep_thread]. Definitions only. *)
+   made, what each returned and (AtomicValue) the ranks on a global clock at
+   which the call was invoked and at which it returned. The check is
+   outcome-set inclusion: [check_case] searches the schedules of the MODEL
+   machine for one along which the model returns exactly the observed results
+   AND whose real-time order contains the observed one (a call may start in
+   the model run only after every call that had RETURNED before it was INVOKED
+   has returned in the model run): the observed history must be LINEARIZABLE
+   in the model, not only sequentially consistent. No such schedule =
+   mismatch. The search runs the model's own [astep] / [pstep_thread].
+
+   AtomicValue, two granularities:
+   - step level ([ssearch], histories of weight <= 10 where a CompareAndSwap
+     weighs 2 and any other call 1): a scheduling decision lets one goroutine
+     perform ONE atomic step on atomic.Value (fused with its invocation step
+     before and its return step after, which touch nothing shared), with
+     either value of the [coincide] flag at the pointer comparison of
+     atomic.Value.CompareAndSwap. Steps of different calls interleave, so the
+     failing pointer comparison, the Load after it and the retry of the
+     wrapper's loop are executed by the check.
+   - call level ([asearch], larger histories): a scheduled call runs to its
+     return without interruption; no outcome is lost because every call takes
+     effect at one step (C18_register_linearizable).
+   Probe cases ([CaseAtomic true]): the harness asserts that the program has
+   ONE possible outcome under the property (CompareAndSwap(x,x) while another
+   goroutine stores the equal value x). For these EVERY step-level schedule
+   of the model that respects the observed real-time order (every
+   interleaving, both values of [coincide], every retry) must end with
+   exactly the observed results.
+
+   Two things the property leaves open are accepted although the model (= the
+   present code) never does them ([open_cas], [open_get]): CompareAndSwap
+   answering true and storing new BEFORE the first Store (the model answers
+   false, as atomic.Value does), and, with New == nil, Get returning an item
+   that was Put and not handed out since (the model returns the zero value).
+   Definitions only. *)
 From Typ Require Export Lib.Base Sync.AtomicPool.
 
 (* Pool operations as the harness writes them (all numbers Z). An item is
@@ -18,34 +46,20 @@ Inductive zpop :=
 | ZPutFresh
 | ZPutZero.
 
+(* one recorded AtomicValue call: ((call, observed result), (invocation rank, response rank)) *)
+Definition acall := (op Z * res Z * (Z * Z))%type.
+Definition c_op (x : acall) : op Z := fst (fst x).
+Definition c_res (x : acall) : res Z := snd (fst x).
+Definition c_inv (x : acall) : Z := fst (snd x).
+Definition c_ret (x : acall) : Z := snd (snd x).
+
 Inductive case :=
-| CaseAtomic (threads : list (list (op Z * res Z)))   (* per goroutine: call, observed result *)
+| CaseAtomic (single_outcome : bool) (threads : list (list acall))   (* per goroutine, in program order *)
 | CasePool (new : bool) (threads : list (list zpop)).
 
 (* ---------------- AtomicValue ---------------- *)
 
 Definition zres_eqb := @res_eqb Z Z.eqb.
-
-(* thread t alone performs its next call, from invocation to return *)
-Fixpoint afinish (fuel : nat) (c : aconfig Z) (t : tid) : option (aconfig Z) :=
-  match fuel with
-  | O => None
-  | S fuel' =>
-    match astep 0%Z Z.eqb c t false with
-    | None => None
-    | Some c' =>
-      match nth_error (a_threads c') t with
-      | Some th => match a_pc th with AIdle => Some c' | _ => afinish fuel' c' t end
-      | None => None
-      end
-    end
-  end.
-
-Definition last_ret (c : aconfig Z) (t : tid) : option (res Z) :=
-  match nth_error (a_threads c) t with
-  | Some th => match rev (a_rets th) with r :: _ => Some r | [] => None end
-  | None => None
-  end.
 
 Fixpoint set_nth_list {A} (l : list (list A)) (t : nat) (x : list A) : list (list A) :=
   match l, t with
@@ -54,27 +68,125 @@ Fixpoint set_nth_list {A} (l : list (list A)) (t : nat) (x : list A) : list (lis
   | y :: r, S t' => y :: set_nth_list r t' x
   end.
 
-Fixpoint asearch (fuel : nat) (c : aconfig Z) (obs : list (list (res Z))) : bool :=
+Fixpoint exists_lazy {A} (f : A -> bool) (l : list A) : bool :=
+  match l with [] => false | a :: l' => if f a then true else exists_lazy f l' end.
+
+Definition all_done {A} (obs : list (list A)) : bool :=
+  forallb (fun l => match l with [] => true | _ => false end) obs.
+
+Definition pc_of (c : aconfig Z) (t : tid) : apc Z :=
+  match nth_error (a_threads c) t with Some th => a_pc th | None => AIdle end.
+
+(* [obs] = per goroutine the calls that have not yet returned in the model run.
+   Goroutine t may invoke a call of invocation rank [inv] only if the first
+   such call of every other goroutine has a response rank above [inv]. *)
+Definition rt_ok (t : tid) (inv : Z) (obs : list (list acall)) : bool :=
+  forallb (fun t' => if t' =? t then true else
+                     match nth t' obs [] with [] => true | x :: _ => Z.ltb inv (c_ret x) end)
+          (seq 0 (length obs)).
+
+(* left open by the property: CompareAndSwap before the first Store answering true and storing new *)
+Definition open_cas (c : aconfig Z) (t : tid) (new : Z) : option (aconfig Z) :=
+  match nth_error (a_threads c) t with
+  | Some th => Some (AConfig (prim_install new (a_reg c))
+                             (set_athread (a_threads c) t (AThread (a_prog th) (ARet (RBool true)) (a_rets th)))
+                             (EvLin t :: a_trace c))
+  | None => None
+  end.
+
+Inductive adv :=
+| ADisabled                                            (* t has nothing to do, or real time forbids the invocation *)
+| AMismatch                                            (* the call returned something else than observed *)
+| ANext (c : aconfig Z) (obs : list (list acall)).
+
+(* One scheduling decision: goroutine t performs one atomic step on the
+   register with flag [co]; before it, the invocation step if no call of t is
+   in progress; after it, the return step if the call is complete (then the
+   result is compared with the observed one and the call leaves [obs]). *)
+Definition advance (c : aconfig Z) (obs : list (list acall)) (t : tid) (co : bool) : adv :=
+  match nth t obs [] with
+  | [] => ADisabled
+  | x :: rest =>
+    let c1 := match pc_of c t with
+              | AIdle => if rt_ok t (c_inv x) obs then astep 0%Z Z.eqb c t false else None
+              | _ => Some c
+              end in
+    match c1 with
+    | None => ADisabled
+    | Some c1 =>
+      let c2 := match pc_of c1 t, r_cur (a_reg c1), c_res x with
+                | ACall (OCas _ new), None, RBool true => open_cas c1 t new
+                | _, _, _ => astep 0%Z Z.eqb c1 t co
+                end in
+      match c2 with
+      | None => ADisabled
+      | Some c2 =>
+        match pc_of c2 t with
+        | ARet r => if zres_eqb r (c_res x)
+                    then match astep 0%Z Z.eqb c2 t false with
+                         | Some c3 => ANext c3 (set_nth_list obs t rest)
+                         | None => ADisabled
+                         end
+                    else AMismatch
+        | _ => ANext c2 obs
+        end
+      end
+    end
+  end.
+
+(* call level: goroutine t alone performs its next call, from invocation to return *)
+Fixpoint acall_run (fuel : nat) (c : aconfig Z) (obs : list (list acall)) (t : tid) : adv :=
+  match fuel with
+  | O => ADisabled
+  | S fuel' =>
+    match advance c obs t false with
+    | ANext c' obs' => match pc_of c' t with AIdle => ANext c' obs' | _ => acall_run fuel' c' obs' t end
+    | r => r
+    end
+  end.
+
+Fixpoint asearch (fuel : nat) (c : aconfig Z) (obs : list (list acall)) : bool :=
   match fuel with
   | O => false
   | S fuel' =>
-    if forallb (fun l => match l with [] => true | _ => false end) obs then true else
-    existsb (fun t =>
-      match nth t obs [] with
-      | [] => false
-      | r :: rest =>
-        match afinish 8 c t with
-        | Some c' => match last_ret c' t with
-                     | Some r' => zres_eqb r r' && asearch fuel' c' (set_nth_list obs t rest)
-                     | None => false
-                     end
-        | None => false
-        end
-      end) (seq 0 (length obs))
+    if all_done obs then true else
+    exists_lazy (fun t => match acall_run 8 c obs t with
+                          | ANext c' obs' => asearch fuel' c' obs'
+                          | _ => false
+                          end) (seq 0 (length obs))
   end.
 
-Definition check_atomic (ths : list (list (op Z * res Z))) : bool :=
-  asearch (S (length (concat ths))) (ainit (map (map fst) ths)) (map (map snd) ths).
+(* step level: the decisions available in a configuration *)
+Definition choices (c : aconfig Z) (n : nat) : list (tid * bool) :=
+  flat_map (fun t => match pc_of c t with ACas2 _ _ _ => [(t, false); (t, true)] | _ => [(t, false)] end) (seq 0 n).
+
+Definition is_next (r : adv) : bool := match r with ANext _ _ => true | _ => false end.
+
+Fixpoint ssearch (all : bool) (fuel : nat) (c : aconfig Z) (obs : list (list acall)) : bool :=
+  match fuel with
+  | O => false
+  | S fuel' =>
+    if all_done obs then true else
+    let rs := map (fun d => advance c obs (fst d) (snd d)) (choices c (length obs)) in
+    if all
+    then existsb is_next rs &&
+         forallb (fun r => match r with
+                           | ADisabled => true
+                           | AMismatch => false
+                           | ANext c' obs' => ssearch all fuel' c' obs'
+                           end) rs
+    else exists_lazy (fun r => match r with ANext c' obs' => ssearch all fuel' c' obs' | _ => false end) rs
+  end.
+
+Definition weight (ths : list (list acall)) : nat :=
+  list_sum (map (fun x => match c_op x with OCas _ _ => 2 | _ => 1 end) (concat ths)).
+
+Definition check_atomic (single : bool) (ths : list (list acall)) : bool :=
+  let n := S (length (concat ths)) in
+  let c := ainit (map (map c_op) ths) in
+  if single then ssearch true (4 * n * n) c ths
+  else if weight ths <=? 10 then ssearch false (4 * n * n) c ths
+  else asearch n c ths.
 
 (* ---------------- Pool ---------------- *)
 
@@ -115,6 +227,20 @@ Definition last_got (c : pconfig) (t : tid) : option val :=
   | None => None
   end.
 
+(* left open by the property: with New == nil, Get handing out an item that is in the pool *)
+Definition open_get (c : pconfig) (t : tid) (i : nat) (v : val) : option pconfig :=
+  match nth_error (p_threads c) t with
+  | Some th =>
+    match p_pc th, p_prog th with
+    | GIdle, PGet :: rest =>
+        Some (PConfig (p_new c) (remove_nth i (p_bag c))
+                      (set_pthread (p_threads c) t (PThread rest GIdle (p_held th ++ [v]) (p_fresh th) (p_got th ++ [v])))
+                      (PERetGet t v SrcBag :: PETake t v :: PEInvGet t :: p_trace c))
+    | _, _ => None
+    end
+  | None => None
+  end.
+
 Fixpoint psearch (fuel : nat) (c : pconfig) (obs : list (list zpop)) : bool :=
   match fuel with
   | O => false
@@ -124,6 +250,15 @@ Fixpoint psearch (fuel : nat) (c : pconfig) (obs : list (list zpop)) : bool :=
       match nth t obs [] with
       | [] => false
       | ZGet o :: rest =>
+        if negb (p_new c) && negb (val_eqb (zval o) Zero) then
+          match index_of (zval o) (p_bag c) with
+          | Some i => match open_get c t i (zval o) with
+                      | Some c' => psearch fuel' c' (set_nth_list obs t rest)
+                      | None => false
+                      end
+          | None => false
+          end
+        else
         (* the pool hands out the observed item if the bag has it, else it misses *)
         let ch := match index_of (zval o) (p_bag c) with Some i => Take i | None => Miss end in
         match pfinish 6 c t ch with
@@ -146,6 +281,6 @@ Definition check_pool (new : bool) (ths : list (list zpop)) : bool :=
 
 Definition check_case (c : case) : bool :=
   match c with
-  | CaseAtomic ths => check_atomic ths
+  | CaseAtomic single ths => check_atomic single ths
   | CasePool new ths => check_pool new ths
   end.
